@@ -285,6 +285,14 @@ func init() {
 		}
 		return &TupleV{V: []Value{c.byteC(s[0]), IfaceV{Nil: true}}}
 	})
+	intrinsics["os.Getenv"] = func(c *Ctx, st *State, in ssa.Instruction, args []Value) Value {
+		n, ok := concStr(args[0])
+		if !ok {
+			unsupported("os.Getenv of a symbolic name")
+		}
+		c.Assumed["the environment is an arbitrary but fixed map from names to strings"] = true
+		return c.envVar(st, n)
+	}
 	intrinsics["fmt.Sprintf"] = func(c *Ctx, st *State, in ssa.Instruction, args []Value) Value {
 		f, ok := concStr(args[0])
 		if !ok {
